@@ -119,7 +119,7 @@ def run_sequence(ctx, w, seq, term, detect, rw, link=False, facade=False):
     from vmon.sim import devnode
     from vmon.spec import sense as SN
 
-    node = devnode.new_node(link=link)
+    node = devnode.new_node(link=link, own_dir=len(seq) % 2 == 1)
     del w.handles[:]
     del w.open_modes[:]
     w.fail_next_close = False
@@ -284,7 +284,9 @@ def run_sequence(ctx, w, seq, term, detect, rw, link=False, facade=False):
             disturbed = True
         elif evn == "U":
             if state["exists"]:
-                devnode.unplug(node)
+                # the ways a node vanishes: the name is gone, it dangles, it resolves to itself, its directory is gone
+                kind = devnode.UNPLUG_KINDS[(len(seq) // 2 + pos + seq.count("U")) % len(devnode.UNPLUG_KINDS)]
+                ctx.add("unplug_kinds", devnode.unplug(node, kind))
             state["exists"] = False
             disturbed = True
         elif evn == "X":
@@ -469,6 +471,10 @@ def run(shard, ctx):
     ctx.add("sequence_max_length", L)
 
 
+URL1 = "iscsi://127.0.0.1:3260/iqn.2003-01.org.example:target0/0"
+URL2 = "iscsi://192.0.2.7:3260/iqn.2003-01.org.example:target1/3"
+
+
 def run_iscsi(ctx):
     import sys
 
@@ -521,6 +527,37 @@ def run_iscsi(ctx):
                 ctx.count("iscsi_sequences")
                 if len(ctxs) != 1 or ctxs[0].disconnects != 1 or ctxs[0].connected:
                     ctx.fail("C15:iscsi.session_not_released_once", "contexts=%d disconnects=%r" % (len(ctxs), [c.disconnects for c in ctxs]), wit)
+                # the same object connected again with its public open(url) and released again: the new session is released
+                # exactly once as well, and the earlier one stays as it was
+                for again in range(2):
+                    known = list(isc.contexts)
+                    try:
+                        dev.open(URL2 if again else URL1)
+                    except Exception as e:  # noqa: BLE001
+                        ctx.fail("C15:iscsi.reopen_raises.%s" % type(e).__name__, "open(url) on a released device raised %r" % e, wit, exc=e)
+                        break
+                    new = [c for c in isc.contexts if not any(c is k for k in known)]
+                    st["status"] = 0
+                    try:
+                        dev.execute(TestUnitReady(E.spc.TEST_UNIT_READY))
+                    except Exception as e:  # noqa: BLE001
+                        ctx.fail("C15:iscsi.reopened_device_unusable.%s" % type(e).__name__, "a command on the re-opened device raised %r" % e, wit, exc=e)
+                    try:
+                        if (len(tup) + again) % 2:
+                            dev.close()
+                        else:
+                            with dev:
+                                pass
+                    except Exception as e:  # noqa: BLE001
+                        ctx.fail("C15:iscsi.close_raises.%s" % type(e).__name__, "close after re-open raised %r" % e, wit, exc=e)
+                    ctx.count("iscsi_reopen_histories")
+                    if len(new) != 1 or new[0].disconnects != 1 or new[0].connected:
+                        ctx.fail("C15:iscsi.reopened_session_not_released_once", "after release, open(url), release: the later session was released %r times (connected: %r)"
+                                 % ([c.disconnects for c in new], [c.connected for c in new]), dict(wit, reopened=again + 1))
+                        break
+                    if any(c.disconnects != 1 for c in ctxs):
+                        ctx.fail("C15:iscsi.earlier_session_released_again", "releasing the re-opened device disconnected the earlier session again", dict(wit, reopened=again + 1))
+                        break
                 # the session stays released exactly once when the device object goes away afterwards
                 dev = s = None
                 gc.collect()
